@@ -188,6 +188,9 @@ json_strings = st.one_of(
     st.lists(st.sampled_from(list('.0,]}[{"\\/:e-+ 19a') + ['\n', '\x00', '\x1f', ' ', '\ud800', '\udc00', '\U0001f600', 'é']),
              max_size=10).map(''.join).map(_no_pair),
     st.text(max_size=8),
+    # JSON's own words and the escape character as whole tokens (a string may end in a backslash, contain NaN / Infinity / null ...)
+    st.lists(st.sampled_from(['NaN', 'Infinity', '-Infinity', 'null', 'true', 'false', '\\', '"', '\\"', ' ', 'a', ',', ':', '[', ']', '{', '}', '\\\\', '\\u0041', '\\n',
+                              'undefined', '-', '1e5']), max_size=6).map(''.join),
     st.builds(lambda n, t: repr(n) + t, gv.finite_doubles, st.sampled_from(['', ',', ']', '}', '.0', '.0,', '.00]'])),
 )
 json_numbers = st.one_of(gv.finite_doubles, gv.finite_doubles, st.integers(-(2 ** 53) + 1, 2 ** 53 - 1), st.integers(-100, 100),
@@ -200,6 +203,35 @@ def json_values(depth):
         return json_leaves
     sub = json_values(depth - 1)
     return st.one_of(json_leaves, st.lists(sub, max_size=4), st.dictionaries(json_strings, sub, max_size=4))
+
+
+def share_subvalue(v, seed):
+    """Make one container of v appear a second time elsewhere in v - the SAME object, not a copy (a value built by a script that stores one
+    array / object in two places). The value stays acyclic: the second place is never inside the shared container."""
+    import random
+    rnd = random.Random(seed)
+    nodes = []
+
+    def walk(x):
+        if isinstance(x, (list, dict)):
+            nodes.append(x)
+            for y in (x if isinstance(x, list) else x.values()):
+                walk(y)
+    walk(v)
+    if len(nodes) < 2:
+        return False
+    node = rnd.choice(nodes[1:])
+    inside = []
+    saved, nodes[:] = list(nodes), []
+    walk(node)
+    inside = [id(x) for x in nodes]
+    hosts = [x for x in saved if id(x) not in inside]
+    host = rnd.choice(hosts)
+    if isinstance(host, list):
+        host.insert(rnd.randint(0, len(host)), node)
+    else:
+        host['shared' + str(rnd.randint(0, 3))] = node
+    return True
 
 
 def plan(tier):
@@ -227,17 +259,28 @@ def run_shard(ctx, spec):
         ctx.exhaustive['all strings of length <= 4 over {a . 0 , ] }} x 7 embeddings x indent {none,2}'] = True
         return
 
-    def prop(v, indent):
-        text = check_value(v, indent, seen)
+    def prop(v, indent, share):
+        tree = enc(v) if share else None
+        shared = share_subvalue(v, share) if share else False
+        try:
+            text = check_value(v, indent, seen)
+        except Violation as e:
+            if shared:
+                e.detail.update(tree=tree, share=share)
+            raise
         depth = 0
         x = text
         ctx.case(digest(enc([v, indent])), nontrivial(v),
-                 ['indent' if indent else 'compact', 'container' if isinstance(v, (list, dict)) else 'scalar',
+                 ['indent' if indent else 'compact', 'container' if isinstance(v, (list, dict)) else 'scalar', 'shared-subvalue' if shared else 'tree',
                   'surrogate' if re.search('[\ud800-\udfff]', json.dumps(v, ensure_ascii=False)) else 'no-surrogate'],
                  {'value': v, 'indent': indent, 'text': text[:120]})
     indent = st.one_of(st.none(), st.none(), st.integers(1, 8).map(float), st.integers(1, 8))
-    run_hypothesis(ctx, prop, [json_values(4), indent], spec['n'], salt=spec['k'])
+    run_hypothesis(ctx, prop, [json_values(4), indent, st.one_of(st.just(0), st.just(0), st.integers(1, 2 ** 20))], spec['n'], salt=spec['k'])
 
 
 def replay(detail):
-    check_value(dec(detail['v']), dec(detail['indent']), {})
+    v = dec(detail['v'])
+    if detail.get('share'):
+        v = dec(detail['tree'])
+        share_subvalue(v, detail['share'])
+    check_value(v, dec(detail['indent']), {})
